@@ -651,7 +651,7 @@ class Spec:
             jobs.append(("enum", (lvl, 32768, 64), b"G /?a HTTP/1.0", tl, b""))
             jobs.append(("enum", (lvl, 32768, 4096), b"G /?a=1 HTTP/1.0", tl, b"\n"))
             # field lines (small read buffer: header tail re-used; large: not)
-            jobs.append(("enum", (lvl, 32768, 64), b"G / HTTP/1.0\r\n", tl + (0 if thorough else 1), b""))
+            jobs.append(("enum", (lvl, 32768, 64), b"G / HTTP/1.0\r\n", tl, b""))
             jobs.append(("enum", (lvl, 32768, 4096), b"GET / HTTP/1.1\r\n", tl, b"\r\n\r\nGE"))
             jobs.append(("enum", (lvl, 32768, 96), b"G /?a HTTP/1.1\r\nx:1", tl, b"\na:1\n\nZ"))
             jobs.append(("enum", (lvl, 32768, 64), b"G / HTTP/1.0\r\nCookie:", tl, b"\r\n\r\n"))
@@ -745,7 +745,7 @@ class Spec:
     def daemon_cases(self, ctx, boost):
         rng = ctx.rng
         thorough = ctx.tier == "thorough"
-        n = (6000 if thorough else 700) * (2 if boost else 1)
+        n = (30000 if thorough else 3000) * (2 if boost else 1)
         arenas = [256, 512, 1024, 1536, 4096, 32768]
         cases = []
         for i in range(n):
